@@ -174,7 +174,35 @@ _SEED = [0, "quick"]
 def run(pid, tier, seed):
     _SEED[0], _SEED[1] = seed, tier
     rng = Rng(seed * 1000 + int(pid[1:]))
-    return globals()["run_" + pid](rng, tier)
+    res = globals()["run_" + pid](rng, tier)
+    tie_kinds = ("correspondence", "float-correspondence")
+    tie_only = [v for v in res["violations"] if v[2].get("kind") in tie_kinds]
+    others = [v for v in res["violations"] if v[2].get("kind") not in tie_kinds]
+    known = known_keys(pid)
+    if tie_only and not [v for v in others if v[0] not in known] and tier == "quick" and not os.environ.get("VERIF_NO_SEARCH"):
+        # the tie broke but no oracle rejected anything: search the implementation for a concrete failing input
+        # with the thorough-size generators and two further seeds before reporting `no-failing-input-found`
+        for extra in (1, 2):
+            _SEED[0], _SEED[1] = seed + extra, "thorough"
+            r2 = globals()["run_" + pid](Rng((seed + extra) * 1000 + int(pid[1:])), "thorough")
+            found = [v for v in r2["violations"] if v[2].get("kind") not in tie_kinds and v[0] not in known]
+            if found:
+                res["violations"] = found
+                res["coverage"]["failing_input_search"] = {"extra_cases": r2["coverage"].get("evaluations"), "found": True,
+                                                           "tie_failures_explained": [v[1][:200] for v in tie_only]}
+                break
+        else:
+            res["coverage"]["failing_input_search"] = {"found": False, "note": "thorough-size search with two further seeds accepted everything"}
+    return res
+
+def known_keys(pid):
+    known = set()
+    kf = os.path.join(ROOT, "known_findings.txt")
+    if os.path.exists(kf):
+        for line in open(kf):
+            if line.startswith("known:") and ("property=%s " % pid) in line:
+                known.add(line.split()[2].split("=")[1])
+    return known
 
 def replay(pid, path):
     j = json.load(open(path))
